@@ -883,7 +883,11 @@ class Sampler():
                         enumerate(blobs[0])]
                 else:
                     self.blobs_dtype = np.array([blobs[0][0]]).dtype
-            blobs = np.squeeze(np.array(blobs, dtype=self.blobs_dtype))
+            blobs = np.array(blobs, dtype=self.blobs_dtype)
+            # Only remove the axis enumerating the blobs of a single point.
+            # The axis enumerating the points must survive for batch size 1.
+            if blobs.ndim > 1 and blobs.shape[1] == 1:
+                blobs = np.squeeze(blobs, axis=1)
         else:
             log_l = np.array(result)
             blobs = None
